@@ -177,15 +177,32 @@ class ExprTr:
         parts = []
         left = node.left
         for op, right in zip(node.ops, node.comparators):
-            ls, lt = self.tr(left)
-            rs, rt = self.tr(right)
-            if lt == "Str" and rt == "Str":
+            if isinstance(op, (ast.In, ast.NotIn)):
+                lt = rt = None
+            else:
+                ls, lt = self.tr(left)
+                rs, rt = self.tr(right)
+            if isinstance(op, (ast.In, ast.NotIn)):
+                pass
+            elif lt == "Str" and rt == "Str":
                 pass
             elif lt in ("Int", "Rat") and rt in ("Int", "Rat"):
                 if lt != rt:
                     ls, rs = self.to_rat(ls, lt), self.to_rat(rs, rt)
             else:
                 raise Untranslatable(f"compare {lt} with {rt}: {ast.unparse(node)}")
+            if isinstance(op, (ast.In, ast.NotIn)) and isinstance(right, (ast.Tuple, ast.List, ast.Set)):
+                ls, lt = self.tr(left)
+                alts = []
+                for e in right.elts:
+                    es, et = self.tr(e)
+                    if et != lt:
+                        raise Untranslatable("membership test with mixed types")
+                    alts.append(f"({ls} = {es})")
+                body = "(" + " ∨ ".join(alts) + ")" if alts else "False"
+                parts.append(body if isinstance(op, ast.In) else f"(¬ {body})")
+                left = right
+                continue
             sym = {ast.Lt: "<", ast.LtE: "≤", ast.Gt: ">", ast.GtE: "≥", ast.Eq: "=",
                    ast.NotEq: "≠"}.get(type(op))
             if sym is None:
@@ -337,7 +354,7 @@ class FuncTr:
         if n in self.declared:
             return f"{lname(n)} := {s}"
         self.declared.add(n)
-        return f"let mut {lname(n)} : {ty} := {s}"
+        return f"let mut {lname(n)} : {leantype(ty)} := {s}"
 
     def if_(self, st: ast.If, ind: int) -> list[str]:
         pad = "  " * ind
@@ -382,6 +399,10 @@ def exc_of(st: ast.Raise) -> str:
     return EXC_MAP[name]
 
 
+def leantype(t: str) -> str:
+    return t.replace("Str", "String")
+
+
 def translate_function(fn: ast.FunctionDef, name: str, params: list[tuple[str, str]], ret: str,
                        subst=None, consts=None) -> str:
     """Whole function -> `def name (params) : Py.PyM ret := do ...`."""
@@ -394,8 +415,8 @@ def translate_function(fn: ast.FunctionDef, name: str, params: list[tuple[str, s
             lines.append(f"  let mut {lname(p)} : {ty} := {lname(p)}")
             ftr.declared.add(p)
     lines += ftr.block(fn.body, 1)
-    sig = " ".join(f"({lname(p)} : {ty})" for p, ty in params)
-    return f"def {name} {sig} : Py.PyM {ret} := do\n" + "\n".join(lines) + "\n"
+    sig = " ".join(f"({lname(p)} : {leantype(ty)})" for p, ty in params)
+    return f"def {name} {sig} : Py.PyM {leantype(ret)} := do\n" + "\n".join(lines) + "\n"
 
 
 def translate_expr(node: ast.AST, name: str, params: list[tuple[str, str]], subst=None,
@@ -406,8 +427,8 @@ def translate_expr(node: ast.AST, name: str, params: list[tuple[str, str]], subs
         s, ty = f"(decide {s})", "Bool"
     if want == "Rat" and ty == "Int":
         s, ty = etr.to_rat(s, ty), "Rat"
-    sig = " ".join(f"({lname(p)} : {t})" for p, t in params)
-    return f"def {name} {sig} : {ty} :=\n  {s}\n", ty
+    sig = " ".join(f"({lname(p)} : {leantype(t)})" for p, t in params)
+    return f"def {name} {sig} : {leantype(ty)} :=\n  {s}\n", ty
 
 
 def translate_lets(items: list[tuple[str, ast.AST]], outputs: list[str], name: str,
@@ -420,9 +441,9 @@ def translate_lets(items: list[tuple[str, ast.AST]], outputs: list[str], name: s
         if ty == "Prop":
             s, ty = f"(decide {s})", "Bool"
         etr.types[var] = ty
-        lines.append(f"  let {lname(var)} : {ty} := {s}")
+        lines.append(f"  let {lname(var)} : {leantype(ty)} := {s}")
     outs = [(lname(o), etr.types[o]) for o in outputs]
     ret = " × ".join(t for _, t in outs)
-    sig = " ".join(f"({lname(p)} : {t})" for p, t in params)
+    sig = " ".join(f"({lname(p)} : {leantype(t)})" for p, t in params)
     body = "(" + ", ".join(o for o, _ in outs) + ")" if len(outs) > 1 else outs[0][0]
-    return f"def {name} {sig} : {ret} :=\n" + "\n".join(lines) + f"\n  {body}\n", ret
+    return f"def {name} {sig} : {leantype(ret)} :=\n" + "\n".join(lines) + f"\n  {body}\n", ret
